@@ -240,6 +240,36 @@ func ruleR17_1(w *World, r *Report) {
 			}
 		}
 	})
+	// and a datatype of another collection is refused, not classified as "nothing has this DUID" (which lets a create
+	// request go on under the foreign DUID: the log is keyed by DUID alone)
+	if checked {
+		bad := ""
+		forEachOwnInstr(fn, func(in ssa.Instruction) {
+			ret, ok := in.(*ssa.Return)
+			if !ok || len(ret.Results) != 2 {
+				return
+			}
+			if k, isK := ret.Results[1].(*ssa.Const); !isK || k.Value != nil {
+				return // an error is returned
+			}
+			paths, okp := reachingLitsOwn(fn, nil, ret)
+			if !okp {
+				return
+			}
+			for _, p := range paths {
+				for _, l := range p {
+					if l.Kind != "cmp" || l.Op != token.NEQ {
+						continue
+					}
+					s := canonName(l.X) + "|" + canonName(l.Y)
+					if strings.Contains(s, "CollectionNum") && strings.Contains(s, "collectionDoc.Num") {
+						bad = u.Pos(ret.Pos())
+					}
+				}
+			}
+		})
+		r.Check(bad == "", "evaluatePushPullCase/foreign DUID refused", u.Pos(lookups[0].Pos()), "the mismatch edge returns an error", "when the datatype found by DUID belongs to another collection the request is classified without an error (return at "+bad+"): a create request naming that DUID is then allowed to create, pulls the foreign datatype's log (operations are keyed by DUID alone) and overwrites the foreign datatype document")
+	}
 	r.Check(checked, "evaluatePushPullCase/GetDatatype-by-DUID", u.Pos(lookups[0].Pos()), "collection compared", "the datatype found by DUID is never compared with the request's collection: a client of one collection that names the DUID of a datatype of another collection is classified caseUsedDUID and proceeds to push to and pull from the foreign datatype")
 }
 
